@@ -113,7 +113,7 @@ def make_balancer(cfg):
     bal = Balancer(
         id_col=cfg.get("id_col", "id"),
         reaction_col=cfg.get("reaction_col", "reaction"),
-        n_jobs=cfg.get("n_jobs", 1),
+        n_jobs=cfg.get("ctor_n_jobs", cfg.get("n_jobs", 1)) if "n_jobs" in assign else cfg.get("n_jobs", 1),
         batch_size=cfg.get("batch_size"),
         cache=bool(cfg.get("cache", False)),
         cache_dir=cfg.get("cache_dir", seams.SIMFS_ROOT + "/cache"),
